@@ -259,6 +259,9 @@ EXC_PARENTS = {
 }
 
 
+STATS = {"evaluations": 0, "paths": 0}  # measured per process: whole-function abstract evaluations and paths enumerated
+
+
 class Evaluator:
     MAX_PATHS = 600
     MAX_DEPTH = 8
@@ -294,6 +297,7 @@ class Evaluator:
         outcomes: List[Outcome] = []
         stack: List[List[bool]] = [[]]
         n = 0
+        STATS["evaluations"] += 1
         while stack:
             prefix = stack.pop()
             n += 1
@@ -316,6 +320,7 @@ class Evaluator:
             finally:
                 pass
             outcomes.append(out)
+            STATS["paths"] += 1
             for alt in self._pending:
                 stack.append(alt)
         return outcomes
